@@ -58,11 +58,15 @@ CHECKS = {
             "ones, negotiation for any requested version; C14_fields: every documented request member and query parameter (50 entries) "
             "is rejected below and accepted/required from its documented version by the schema the operation validates with at each "
             "version, read off the JSON schemas REGENERATED from placement/schemas (1593 facts; the schema-per-version table is learnt "
-            "from the running code on every run); plus exhaustive probing of the real service (3800 availability probes, "
-            "53 versioned features x 40 versions, headers).",
+            "from the running code on every run); C14_response_fields / C14_no_undocumented_response_member: every documented RESPONSE "
+            "member, header and status (355 entries transcribed from the API reference, 13 417 facts) is emitted by the model of the "
+            "serialisers exactly from its documented version on, and the model emits nothing undocumented except one recorded "
+            "disagreement (cache headers on PUT /traits/{name}); that model is tied to the code on every run by comparing the member "
+            "paths, headers and status of one real answer per operation and version (1 639 comparisons) with the model evaluated in "
+            "Coq; plus exhaustive probing of the real service (3800 availability probes, 59 versioned features x 40 versions, headers).",
             "6 C14", "Trusted: kernel, translate/routes.py (ast reader, fail-closed), the documented surface transcribed by hand "
-            "into spec/surface.json, microversion_parse modelled; RESPONSE fields and headers per version are decided by exhaustive "
-            "probing, not by a theorem (labelled partial).",
+            "into spec/surface.json (request and response members), microversion_parse modelled; Spec/RespFields.v is a hand-written "
+            "model of the serialisers, validated by the per-answer tie.",
             "Coq finite-domain proof over regenerated tables (translator) + exhaustive surface probing"),
     'C16': ("proof", "Coq theorems over the regenerated routing/decorator/policy tables and a pipeline model with an arbitrary "
             "handler body, state type and policy: every routed operation checks its documented rule before any effect, 401 without "
